@@ -525,6 +525,8 @@ pub struct RunOpts {
     /// keep going after error items?
     pub stop_at_error: bool,
     pub seed: Option<u64>,
+    /// per step index: keep going after an error item at that step (overrides stop_at_error)
+    pub continue_on: Option<Vec<bool>>,
 }
 
 impl Default for RunOpts {
@@ -534,6 +536,7 @@ impl Default for RunOpts {
             probe_after_end: 2,
             stop_at_error: true,
             seed: Some(0x5EED),
+            continue_on: None,
         }
     }
 }
@@ -560,7 +563,10 @@ pub fn run_bound(
                     ended > opts.probe_after_end
                 }
                 RealItem::Panic(_) => true,
-                RealItem::ErrDriver { .. } | RealItem::ErrRuntime(_) => opts.stop_at_error,
+                RealItem::ErrDriver { .. } | RealItem::ErrRuntime(_) => match &opts.continue_on {
+                    Some(c) => !c.get(steps.len()).copied().unwrap_or(false),
+                    None => opts.stop_at_error,
+                },
                 RealItem::Row(_) => false,
             };
             steps.push(st);
